@@ -20,10 +20,12 @@ def before_json(valid_only=False, invalid_bias=False):
     opts = [st.none(), st.none(), st.just(True), st.just(False), st.tuples(st.just("c"), st.integers(0, 6)).map(list),
             st.tuples(st.just("i"), st.integers(0, 4)).map(list)]
     x = st.tuples(st.just("x"), st.integers(0, 40)).map(list)
+    g = st.tuples(st.just("g"), st.integers(0, 10)).map(list)  # a node that has left the tree (stale reference)
     if invalid_bias:
-        return st.one_of(x, st.one_of(*opts))
+        return st.one_of(x, g, st.one_of(*opts))
     if not valid_only:
         opts.append(x)
+        opts.append(g)
     return st.one_of(*opts)
 
 
